@@ -1,7 +1,7 @@
 """C01 - every submitted task runs exactly once; a wait covers all of its work.  (DESIGN.md section 4, C01)"""
 from engine.facts import AnalysisBroken, atomic_op, atomic_ops, is_full_fence, has_acquire, has_release, SEQ_CST, RELAXED
 from engine.rules import (calls, calls_named, atomics_on, every_path_passes, last_member, oname, is_call_to, Defs,
-                          resolve_cond_source, edges_where, dominated_by_edges, lockset, root_of)
+                          resolve_cond_source, edges_where, dominated_by_edges, lockset, root_of, expr_key)
 from rules.common import task_classes, k7_task_class, TBB_SRC
 
 UNITS = ['src/tbb/arena_slot.cpp', 'src/tbb/arena.cpp', 'src/tbb/task_dispatcher.cpp', 'src/tbb/task.cpp',
@@ -43,6 +43,8 @@ def run(facts, rep):
     d8_tree(facts, rep)
     d9_wait(facts, rep)
     d10_task_memory(facts, rep)
+    d9_group_wait_epilogue(facts, rep)
+    d6_vertex_lifetime(facts, rep)
 
 
 # ---------------------------------------------------------------------------------------------------------------
@@ -563,3 +565,102 @@ def d10_task_memory(facts, rep):
         ok = bool(ws) and all(o['kind'] == 'rmw' and o['name'] == 'exchange' for _, o in ws)
         rep.ob('D10', 'K1', fn, 'destroy() marks the public list dead by exchange', ok, ', '.join(o['name'] for _, o in ws))
     rep.floor('D10', 3, 'small object pool')
+
+
+def d9_group_wait_epilogue(facts, rep):
+    """"... or, only if its group was cancelled, skipped": a task_group's context stays cancelled until somebody resets it,
+    and every task submitted meanwhile is skipped.  Each waiting call of task_group_base (wait, run_and_wait(F),
+    run_and_wait(task_handle)) therefore ends - on EVERY exit, normal or exceptional - with reading the cancellation state (the
+    status it returns) and resetting the context; otherwise a cancellation that was consumed by this wait leaks into the work
+    submitted afterwards, which is skipped although nobody cancelled it.  The epilogue is a lambda handed to the try_call proxy;
+    which proxy method runs its argument on every exit is read from the proxy's code: the argument is wrapped into a guard object
+    and the guard is not dismissed on the normal path."""
+    PROXY = 'tbb::detail::try_call_proxy::'
+
+    def exception_only(g):
+        dis = calls_named(g, ('dismiss',))
+        grd = calls_named(g, ('make_raii_guard',))
+        if not grd:
+            return None
+        return bool(dis)
+    n = 0
+    for fn in sorted((f for f in facts.fns.values() if (f.cls or '') == 'tbb::detail::d2::task_group_base' and f.kind == 'method'), key=lambda f: f.q):
+        lams = [(pos, s, facts.fns.get(node.get('fn'))) for pos, s, node in fn.stmt_elems(('lambda',))]
+        lams = [(pos, s, g) for pos, s, g in lams if g is not None]
+        waits = [g for _, _, g in lams if calls_named(g, ('execute_and_wait', 'wait'))] + ([fn] if calls_named(fn, ('execute_and_wait',)) else [])
+        if not waits:
+            continue
+        epi = [(pos, s, g) for pos, s, g in lams
+               if any((d or {}).get('q') == D1 + 'task_group_context::reset' for _, _, _, d in calls(g)) and
+               calls_named(g, ('is_group_execution_cancelled',))]
+        n += 1
+        if not epi:
+            rep.ob('D9', 'K1', fn, 'a waiting call of the group reads the cancellation state and resets the context on every exit', False,
+                   'no epilogue (is_group_execution_cancelled + reset) is attached to the wait: a consumed cancellation stays in the context '
+                   'and every task submitted afterwards is skipped', key_extra='epilogue')
+            continue
+        bad = []
+        for pos, s, g in epi:
+            user = None
+            for p2, s2, node2, d2 in calls(fn):
+                if (d2 or {}).get('p', '').startswith(PROXY) and any(s in fn.subtree(a) for a in node2.get('a', [])):
+                    user = (node2, d2)
+            if user is None:
+                bad.append('the epilogue (line %s) is not handed to the try_call proxy' % fn.nodes[s].get('ln'))
+                continue
+            m = facts.fns.get(user[0].get('fn'))
+            eo = exception_only(m) if m is not None else None
+            if eo is None:
+                raise AnalysisBroken('try_call_proxy::%s: body not found / no guard object' % user[1].get('n'))
+            if eo:
+                bad.append('the epilogue (line %s) is handed to %s(), which dismisses its guard on the normal path: it runs only when the '
+                           'wait throws' % (fn.nodes[s].get('ln'), user[1].get('n')))
+        rep.ob('D9', 'K1', fn, 'a waiting call of the group reads the cancellation state and resets the context on every exit', not bad,
+               '; '.join(bad) + ' - after a wait that ended normally the status is reported as complete, the context stays cancelled and '
+               'every task submitted to the group afterwards is skipped although nobody cancelled it', key_extra='epilogue')
+    if n < 3:
+        raise AnalysisBroken('task_group_base: %d waiting functions found (expected wait, run_and_wait(F), run_and_wait(task_handle))' % n)
+
+
+def d6_vertex_lifetime(facts, rep):
+    """A task of a task_group does not point at the group's wait context but at a per-thread reference_vertex (one per thread and
+    group, kept in the thread's dispatcher) and releases it when it is destroyed - possibly on another thread, possibly long
+    after the creating thread has gone (a deferred task_handle, a task waiting in a pool, a stolen task).  The vertex has to
+    outlive its last child: it is destroyed only where `get_num_child() == 0` is known for that very vertex.  Otherwise the
+    task's release() writes into freed memory, the group's counter is never decremented and the wait never returns (or the
+    process crashes)."""
+    n = 0
+    for fn in sorted(facts.fns.values(), key=lambda f: f.q):
+        dts = [(pos, s, node) for pos, s, node, d in calls(fn) if ((d or {}).get('q') or '') == D1 + 'reference_vertex::~reference_vertex']
+        if not dts:
+            continue
+        defs = Defs(fn)
+        for pos, s, node in dts:
+            n += 1
+            obj = fn.strip(node.get('obj', -1))
+            okey = expr_key(fn, obj)
+            v = defs.unique_value(obj)
+            keys = set([okey]) | (set([expr_key(fn, v)]) if v is not None else set())
+
+            def childless(a, truth):
+                nd = fn.n(fn.strip(a))
+                if nd.get('k') == 'binop' and nd['op'] in ('==', '!='):
+                    for x, y in ((nd['l'], nd['r']), (nd['r'], nd['l'])):
+                        c = fn.n(fn.strip(x))
+                        if c.get('k') == 'call' and (fn.callee(c['s']) or {}).get('n') == 'get_num_child' and fn.cv(y) == 0:
+                            ck = expr_key(fn, c.get('obj', -1))
+                            cv_ = defs.unique_value(fn.strip(c.get('obj', -1)))
+                            cks = set([ck]) | (set([expr_key(fn, cv_)]) if cv_ is not None else set())
+                            if cks & keys:
+                                return truth == (nd['op'] == '==')
+                if nd.get('k') == 'call' and (fn.callee(nd['s']) or {}).get('n') == 'get_num_child' and not truth:
+                    ck = expr_key(fn, nd.get('obj', -1))
+                    return ck in keys
+                return False
+            ok, wit = dominated_by_edges(fn, pos, edges_where(fn, childless))
+            rep.ob('D6', 'K4', fn, 'a per-thread reference vertex is destroyed only when it has no children', ok,
+                   'the vertex is destroyed without `get_num_child() == 0` being known (%s): a task that still points at it (deferred '
+                   'task_handle, task in a pool, stolen task) releases freed memory - the wait of its group never returns or the process '
+                   'crashes' % wit, ln=node.get('ln'), key_extra='vertex-dtor')
+    if n < 2:
+        raise AnalysisBroken('reference_vertex destruction sites: %d (expected the map clean-up and the dispatcher destructor)' % n)
